@@ -20,6 +20,7 @@ from . import dep_leb128 as D
 def _mk_spec(LEN, BYTE, signed):
     class Spec(instrument.LoopSpec):
         local_names = ("b",)
+        mutates = ("r",)
 
         def establish(self, env):
             c = self.ctx
